@@ -1602,7 +1602,7 @@ def _t_eval(target, _t, scope):
         elif op == '[':
             try:
                 cur = cur[arg]
-            except (KeyError, IndexError, TypeError) as e:
+            except (KeyError, IndexError, TypeError, ValueError) as e:
                 pae = PathAccessError(e, Path(_t), i // 2)
         elif op == 'P':
             # Path type stuff (fuzzy match)
